@@ -31,6 +31,7 @@ pub struct ClosureInfo {
 pub struct Collector {
     pub stmts: Vec<(usize, usize)>,
     pub loops: Vec<(usize, usize, usize)>, // span start, span end, body `{` offset
+    pub for_exprs: Vec<(usize, usize)>,    // for loops: loop span start, start of the iterated expression
     pub closures: Vec<(usize, usize)>,
     pub closure_nodes: Vec<ClosureInfo>,
     pub method_calls: Vec<(String, Vec<(usize, usize)>)>, // method name, argument spans
@@ -61,6 +62,7 @@ impl<'ast> Visit<'ast> for Collector {
     fn visit_expr_for_loop(&mut self, e: &'ast syn::ExprForLoop) {
         let (s, en) = br(e.span());
         self.loops.push((s, en, br(e.body.span()).0));
+        self.for_exprs.push((s, br(e.expr.span()).0));
         syn::visit::visit_expr_for_loop(self, e);
     }
     fn visit_expr_loop(&mut self, e: &'ast syn::ExprLoop) {
@@ -290,5 +292,103 @@ impl<'ast, 'a> Visit<'ast> for ViterVisitor<'a> {
 
 pub fn viter_edits(block: &syn::Block, src: &str, edits: &mut Vec<Edit>, rewrites: &mut Vec<String>) {
     let mut v = ViterVisitor { src, edits, rewrites };
+    v.visit_block(block);
+}
+
+/// R6 for `for` patterns: `for (&a, &b) in E { body }` -> `for p0 in E { let a = *p0.0; let b = *p0.1; body }`,
+/// `for &a in E` -> `for p0 in E { let a = *p0; … }` (Verus has no reference patterns; same bindings for Copy items)
+struct ForPat<'a> {
+    src: &'a str,
+    edits: &'a mut Vec<Edit>,
+    rewrites: &'a mut Vec<String>,
+}
+fn deref_ident(p: &syn::Pat) -> Option<String> {
+    match p {
+        syn::Pat::Reference(r) if r.mutability.is_none() => match &*r.pat {
+            syn::Pat::Ident(pi) if pi.by_ref.is_none() && pi.subpat.is_none() => Some(pi.ident.to_string()),
+            _ => None,
+        },
+        _ => None,
+    }
+}
+impl<'ast, 'a> Visit<'ast> for ForPat<'a> {
+    fn visit_expr_for_loop(&mut self, e: &'ast syn::ExprForLoop) {
+        let (ps, pe) = br(e.pat.span());
+        let mut lets = String::new();
+        match &*e.pat {
+            syn::Pat::Tuple(t) => {
+                let names: Vec<Option<String>> = t.elems.iter().map(deref_ident).collect();
+                if !names.is_empty() && names.iter().all(|n| n.is_some()) {
+                    for (i, n) in names.iter().enumerate() {
+                        lets.push_str(&format!("let {} = *p0.{}; ", n.as_ref().unwrap(), i));
+                    }
+                }
+            }
+            p => {
+                if let Some(n) = deref_ident(p) {
+                    lets.push_str(&format!("let {} = *p0; ", n));
+                }
+            }
+        }
+        if !lets.is_empty() {
+            let body_open = br(e.body.span()).0;
+            self.rewrites.push(format!("R6 for pattern `{}` -> `p0` + `{}`", norm(&self.src[ps..pe]), lets.trim()));
+            self.edits.push(Edit { start: ps, end: pe, text: "p0".into(), kind: "R6 for pattern".into(), prio: 0 });
+            self.edits.push(Edit { start: body_open + 1, end: body_open + 1, text: format!(" {}", lets), kind: "R6 for pattern".into(), prio: 2 });
+        }
+        syn::visit::visit_expr_for_loop(self, e);
+    }
+}
+pub fn forpat_edits(block: &syn::Block, src: &str, edits: &mut Vec<Edit>, rewrites: &mut Vec<String>) {
+    let mut v = ForPat { src, edits, rewrites };
+    v.visit_block(block);
+}
+
+/// R9: `format!(LIT, ..)` whose literal contains at least one literal character is wrapped as
+/// `vx_nonempty(format!(LIT, ..))`; `vx_nonempty` is the identity with the assumed postcondition that
+/// the string is not empty (A-fmt).  Arguments are still evaluated.
+struct FmtWrap<'a> {
+    src: &'a str,
+    edits: &'a mut Vec<Edit>,
+    rewrites: &'a mut Vec<String>,
+}
+fn literal_has_text(lit: &str) -> bool {
+    let mut depth = 0;
+    let cs: Vec<char> = lit.chars().collect();
+    let mut i = 0;
+    while i < cs.len() {
+        let c = cs[i];
+        if c == '{' {
+            if i + 1 < cs.len() && cs[i + 1] == '{' { return true; }
+            depth += 1;
+        } else if c == '}' {
+            if depth > 0 { depth -= 1; } else if i + 1 < cs.len() && cs[i + 1] == '}' { return true; }
+        } else if depth == 0 {
+            return true;
+        }
+        i += 1;
+    }
+    false
+}
+impl<'ast, 'a> Visit<'ast> for FmtWrap<'a> {
+    fn visit_expr_macro(&mut self, e: &'ast syn::ExprMacro) {
+        let name = e.mac.path.segments.last().map(|x| x.ident.to_string()).unwrap_or_default();
+        if name == "format" {
+            let mut it = e.mac.tokens.clone().into_iter();
+            if let Some(proc_macro2::TokenTree::Literal(l)) = it.next() {
+                if let Ok(ls) = syn::parse_str::<syn::LitStr>(&l.to_string()) {
+                    if literal_has_text(&ls.value()) {
+                        let (s, en) = br(e.span());
+                        self.edits.push(Edit { start: s, end: s, text: "vx_nonempty(".into(), kind: "R9 fmt".into(), prio: 0 });
+                        self.edits.push(Edit { start: en, end: en, text: ")".into(), kind: "R9 fmt".into(), prio: -1 });
+                        self.rewrites.push(format!("R9 `{}` wrapped in vx_nonempty(..)", norm(&self.src[s..en]).chars().take(50).collect::<String>()));
+                    }
+                }
+            }
+        }
+    }
+}
+pub fn fmt_edits(block: &syn::Block, src: &str, edits: &mut Vec<Edit>, rewrites: &mut Vec<String>) {
+    let mut v = FmtWrap { src, edits, rewrites };
     v.visit_block(block);
 }
